@@ -41,6 +41,7 @@ RULE += (' Also: the underlying iterator fails once through a handle, which is t
 RULE += (' Also: an exception thrown into a CLOSED handle reaches nothing (class sources with athrow but no asend included).')
 RULE += (' Also: streams whose items are awaitable jobs (never awaited by a handle); aggregations that reject an item (dict over non-pairs) stop right there.')
 RULE += (' Also: a value sent through a handle over a generator that was never advanced is refused and takes nothing.')
+RULE += (' Also: a chain closed before its first item has closed the handles it was given.')
 ASSUMPTIONS = ["laziness of the tools themselves is C05's concern; here the stdlib twin predicts how many items a tool takes",
                "athrow on a LIVE handle is not part of the property's operation list and is not generated; athrow on a closed handle is"]
 EXHAUSTIVE_SUBSPACES = 'all histories of length <= 3 (thorough: 4) over a 13-operation alphabet'
@@ -719,6 +720,10 @@ def run_history(case, stats, scoped=None):
                             return
                         if ended or advanced:
                             state[h] = "closed" if name not in ("tee0",) or ended else "unknown"
+                        elif name in ("chain", "chain_mid"):
+                            # (chain advertises closing what it was given even when it was never advanced)
+                            state[h] = "closed"
+                            counters["chains_closed_before_their_first_item"] += 1
                         else:
                             state[h] = "unknown"
                         counters["tools_closed"] += 1
